@@ -212,6 +212,32 @@ fn run_job(job: &Value) -> Value {
     }
     out.insert("types".into(), Value::Object(types));
 
+    // first round: the job's own configuration; further rounds ("then": [cfg, ...]) instantiate the SAME
+    // compilation again under other limits / permissions (one compilation, several runtimes)
+    run_round(&comp, job, &mut out, max_elems, now, default_depth);
+    if let Some(Value::Array(more)) = job.get("then") {
+        let mut rounds = Vec::new();
+        for cfg in more {
+            verif::emit(json!({"ev":"Reset"}));
+            let mut r = Map::new();
+            run_round(&comp, cfg, &mut r, max_elems, now, default_depth);
+            rounds.push(Value::Object(r));
+        }
+        out.insert("rounds".into(), Value::Array(rounds));
+    }
+    finish(out)
+}
+
+/// instantiate `comp` under the limits / permissions of `job`, run its host calls, dump the observed
+/// bindings, drop everything; results go into `out`
+fn run_round(
+    comp: &RootCompilationScope<W, R, T>,
+    job: &Value,
+    out: &mut Map<String, Value>,
+    max_elems: usize,
+    now: f64,
+    default_depth: usize,
+) {
     // ---- instantiate ----------------------------------------------------------------------
     let mut limits = limits_from(job);
     if limits.depth_limit.is_none() {
@@ -341,8 +367,8 @@ fn run_job(job: &Value) -> Value {
         out.insert("writes".into(), json!(stats.stdout.writes));
     }
     out.insert("effects".into(), doubles::take_effect_counts());
-    finish(out)
 }
+
 
 fn cmd_run(args: &[String]) -> i32 {
     let jobs_path = &args[0];
